@@ -10,9 +10,9 @@ C51 — public-suffix lookups follow the PSL algorithm.
 * `flat_eq_walk`: the loop over the packed `nodes`/`children` tables equals the loop over the trie
   those tables denote; `find_sound`/`find_complete`: the binary search over a strictly increasing
   child range finds exactly the node with the label.
-* ICANN flag: the full statement `FlagStatement` is FALSE for the code as it is
-  (`flag_statement_false`): a parent-only node (a label sequence that is only a proper suffix of
-  rules) overwrites the flag with `true`. The suffix part is the `_partial` that holds.
+* ICANN flag (`flag_eq_spec`, `psl_holds`): the returned flag is the flag of the prevailing rule.
+  (Before the repair of list.go a parent-only node overwrote the flag with `true`; the old
+  witnesses are kept as `example`s that now satisfy the statement.)
 * `etld1_*`: `EffectiveTLDPlusOne` = public suffix plus one label, error when there is none.
 * T-tie: bit layout of the packed tables.
 -/
@@ -35,9 +35,12 @@ theorem gen_layout_eq :
 
 /-! ## Main theorem: trie walk = PSL algorithm (public suffix) -/
 
-/-- Well-formed rule list: no label sequence is both a normal and an exception rule, and there is
-no wildcard rule with an empty parent (the default rule `*` is implicit, not a list entry). -/
-def WF (rules : List Rule) : Prop := NoConflict rules ∧ hasWild rules [] = false
+/-- Well-formed rule list: no label sequence is both a normal and an exception rule, there is no
+wildcard rule with an empty parent (the default rule `*` is implicit, not a list entry), and
+rules with the same label sequence (`b.c`, `*.b.c`) are in the same section (the packed trie has
+one ICANN bit per node). -/
+def WF (rules : List Rule) : Prop :=
+  NoConflict rules ∧ hasWild rules [] = false ∧ FlagConsistent rules
 
 /-- For any well-formed rule list and any domain, the `PublicSuffix` loop on the trie built from
 the rules selects the PSL public suffix (longest match, wildcard, exception, default `*`). -/
@@ -45,7 +48,7 @@ theorem suffix_eq_spec (rules : List Rule) (hwf : WF rules) (d : List Nat) :
     (walkResult (nodeAt rules) d).1 = specLen (listIndex rules) d := by
   unfold walkResult specLen
   simp only
-  rw [walk_eq_specGo rules hwf.1 d [] initSt (by simp [initSt, hwf.2])]
+  rw [walk_eq_specGo rules hwf.1 d [] initSt (by simp [initSt, hwf.2.1])]
   rfl
 
 /-- The loop over the packed tables = the loop over the trie the tables denote (`Flat.look`). -/
@@ -81,33 +84,41 @@ theorem find_complete (lab : Nat → Nat) (x lo hi i : Nat)
 
 /-! ## ICANN flag -/
 
-/-- Full statement: the returned flag is the flag of the prevailing rule. -/
-def FlagStatement : Prop :=
-  ∀ (rules : List Rule) (d : List Nat), WF rules → (walkResult (nodeAt rules) d).2 = specFlag rules d
+/-- The returned flag is the ICANN flag of the prevailing rule (`false` for the default rule). -/
+theorem flag_eq_spec (rules : List Rule) (hwf : WF rules) (d : List Nat) :
+    (walkResult (nodeAt rules) d).2 = specFlag rules d := by
+  unfold walkResult specFlag
+  simp only
+  rw [walk_flag_eq rules hwf.1 hwf.2.2 d [] initSt (by simp [initSt, hwf.2.1]) (by simp [initSt])]
+  rfl
 
-/-- FALSE for the code as it is: rules `{b.a}` (private), domain `x.a`: no rule matches (default
-`*`, not ICANN) but the parent-only node `a` sets the flag. -/
-theorem flag_statement_false : ¬ FlagStatement := by
-  intro h
-  have := h [{ kind := .normal, labels := [1, 2], icann := false }] [1, 3]
-    ⟨by intro p ⟨h1, h2⟩; simp [hasNormal, hasExc, hasKind] at h1 h2, by decide⟩
-  revert this
+/-- Full statement: for every well-formed rule list and every domain, `PublicSuffix` on the trie built
+from the rules returns the PSL public suffix AND the ICANN flag of the prevailing rule. -/
+theorem psl_holds (rules : List Rule) (hwf : WF rules) (d : List Nat) :
+    walkResult (nodeAt rules) d = (specLen (listIndex rules) d, specFlag rules d) :=
+  Prod.ext (suffix_eq_spec rules hwf d) (flag_eq_spec rules hwf d)
+
+/-- The same through the packed tables, when they denote the trie of the rules along `d`. -/
+theorem flat_psl_holds (f : Flat) (rules : List Rule) (hwf : WF rules) (d : List Nat)
+    (hrep : ∀ p, p <+: d → f.look p = nodeAt rules p) :
+    flatResult f d = (specLen (listIndex rules) d, specFlag rules d) := by
+  rw [flat_eq_walk, ← psl_holds rules hwf d]
+  unfold walkResult
+  simp only
+  rw [walk_congr f.look (nodeAt rules) d [] initSt (fun p hp => hrep p (by simpa using hp))]
+
+/-- Former counterexample (code before the repair returned `true`): rules `{b.a}` (private), domain
+`x.a`: no rule matches, default rule, not ICANN. -/
+example : walkResult (nodeAt [{ kind := .normal, labels := [1, 2], icann := false }]) [1, 3] = (1, false) := by
   decide
 
-/-- The same with a matching private rule: rules `{a (private), c.b.a}`: `PublicSuffix(x.b.a)` is
-`a` with flag `true` although the prevailing rule `a` is private (this is the shape found in the
-embedded list: `dualstack.us-east-1.amazonaws.com`, `noc.ruhr-uni-bochum.de`, …). -/
-theorem flag_private_rule_reported_icann :
+/-- Former counterexample, the shape found in the embedded list (`x.dualstack.us-east-1.amazonaws.com`):
+rules `{a (private), c.b.a}`, domain `x.b.a`: suffix `a`, private. -/
+example :
     let rules : List Rule := [{ kind := .normal, labels := [1], icann := false },
                               { kind := .normal, labels := [1, 2, 3], icann := false }]
-    walkResult (nodeAt rules) [1, 2, 9] = (1, true) ∧ specFlag rules [1, 2, 9] = false ∧
-    specLen (listIndex rules) [1, 2, 9] = 1 := by
+    walkResult (nodeAt rules) [1, 2, 9] = (1, false) ∧ specFlag rules [1, 2, 9] = false := by
   decide
-
-/-- What holds of the statement "suffix and flag of the prevailing rule": the suffix part, for every
-well-formed rule list and domain (the flag part is excluded, see `flag_statement_false`). -/
-theorem psl_holds_partial (rules : List Rule) (hwf : WF rules) (d : List Nat) :
-    (walkResult (nodeAt rules) d).1 = specLen (listIndex rules) d := suffix_eq_spec rules hwf d
 
 /-! ## EffectiveTLDPlusOne -/
 
